@@ -188,6 +188,18 @@ func init() {
 			}
 			// (c) several unknown options
 			add("unknown-options", &DriverReq{Prog: p, Kind: "parse", Argv: []string{"--zzb", "--zza=1", "-zc", "pos", "--zzd"}, Dispatch: true})
+			// (c2) an unknown option one edit away from several declared names (whatever a diagnostic adds about near misses
+			// must not depend on the order in which the library happens to look at the names)
+			for _, k := range t.Root.SortedKeys() {
+				rs := Runes(k)
+				if len(rs) >= 2 && isASCII(k) {
+					near := strings.Join(rs[:len(rs)-1], "") + "q"
+					if key, _, amb := t.Root.ResolveKey(near); key == "" && amb == nil {
+						add("unknown-near-miss", &DriverReq{Prog: p, Kind: "parse", Argv: []string{"--" + near}, Dispatch: true})
+						break
+					}
+				}
+			}
 			// (d) ambiguous prefixes
 			for _, k := range t.Root.SortedKeys() {
 				fr := FirstRune(k)
